@@ -12,7 +12,10 @@ PathState(p) == CASE p = "absent" -> [conn |-> "none", dest |-> "absent"]
                   [] p = "stale"  -> [conn |-> "stale", dest |-> "accept"]
                   [] p = "refuse" -> [conn |-> "none", dest |-> "refuse"]
                   [] p = "reset"  -> [conn |-> "none", dest |-> "reset"]
-Init == /\ pat \in [prim : {"none", "healthy", "failing"}, path : Paths, msgs : 1..3]
+\* part: a write that fails has first accepted a proper prefix of the message (a connection dying mid-write); what was
+\* accepted there is lost - the retry on another connection must carry the COMPLETE message all the same
+Init == /\ pat \in [prim : {"none", "healthy", "failing"}, path : Paths, msgs : 1..3, part : BOOLEAN]
+        /\ pat.part => (pat.path = "stale" \/ pat.prim = "failing")
         /\ s = [prim |-> pat.prim, conn |-> PathState(pat.path).conn, dest |-> PathState(pat.path).dest]
         /\ n = 0 /\ last = [ok |-> TRUE, on |-> "init", pre |-> s]
 Next == /\ n < pat.msgs
